@@ -9,6 +9,9 @@ CONSTANTS
   MaxEvents = 4
   MaxDeliver = 1000
   MaxReinit = 0
+  EXPECTED = {1}
+  MaxBuf = 0
+  InitOrder = "snapshot-first"
   MaxLen = 4
 INVARIANT Emit
 CHECK_DEADLOCK FALSE
